@@ -192,7 +192,7 @@ void h_PLSRegressionStatistics(void)
 #endif
 
 #ifdef VC_UNIT_FORMULAS
-/* R2 / MSE / RMSE / MAE / BIAS against their formulas on exact instances (IEEE mode: integer cells 0..3, 2 or 4 elements,
+/* R2 / MSE / RMSE / MAE / BIAS against their formulas on exact instances (IEEE mode: integer cells 0..3, 2 elements (3 with one missing-coded),
  * total sum of squares a power of two): every intermediate of the formulas is then exactly representable, so every
  * mathematically equivalent evaluation (one-pass / shifted formulas, other summation order) returns the same double and
  * exact equality is the right obligation.  What is decided: which elements enter which sum, the argument order
